@@ -32,14 +32,14 @@ TESTS=$(cargo nextest run --workspace --no-fail-fast --tool-config-file pb:/w/li
 mkdir -p $H && cp -r /verif/harness/Cargo.toml /verif/harness/.cargo $H/ && ln -s /verif/harness/src $H/src && cp /verif/harness/Cargo.lock $H/ 2>/dev/null
 sed -i "s#/repo/#$WT/#g" $H/Cargo.toml
 cd /verif
-VERIF_HARNESS_DIR=$H timeout 1800 python3 tools/check.py $ID --tier quick > $DST/check.log 2>&1; RC_CHECK=$?
+VERIF_REPO_DIR=$WT VERIF_HARNESS_DIR=$H timeout 1800 python3 tools/check.py $ID --tier quick > $DST/check.log 2>&1; RC_CHECK=$?
 # further parts of the same check (tools/props/<id>_<part>.py), as in the manifest's quick_cmd
 idl=$(echo $ID | tr A-Z a-z)
 for pf in tools/props/${idl}_*.py; do
   [ -f "$pf" ] || continue
   [ $RC_CHECK -eq 0 ] || break
   pt=$(basename $pf .py); pt=${pt#${idl}_}
-  VERIF_HARNESS_DIR=$H timeout 1800 python3 tools/check.py $ID --part $pt --tier quick >> $DST/check.log 2>&1; RC_CHECK=$?
+  VERIF_REPO_DIR=$WT VERIF_HARNESS_DIR=$H timeout 1800 python3 tools/check.py $ID --part $pt --tier quick >> $DST/check.log 2>&1; RC_CHECK=$?
 done
 VERDICT=$(grep -E "^VIOLATION" $DST/check.log | head -1); [ -z "$VERDICT" ] && VERDICT=$(grep -E "^OK" $DST/check.log | tail -1)
 REPLAY=$(echo "$VERDICT" | sed -n 's/.*replay=\([^ ]*\).*/\1/p')
